@@ -256,6 +256,9 @@ def fn_at_line(text, line):
     return "?"
 
 
+UNTYPED_CLOSURE = re.compile(r"(?:[(,=]|\breturn\b)\s*(?:move\s+)?\|\s*(?:_|&?[a-z_]\w*|\([^|():]*\))(?:\s*,\s*(?:_|&?[a-z_]\w*|\([^|():]*\)))*\s*\|(?!\|)")
+
+
 def parse_verus_errors(stderr, text):
     """Return (failures, hard_errors).  failures: [{kind, fn, label, line, snippet}]"""
     failures = []
@@ -277,6 +280,13 @@ def parse_verus_errors(stderr, text):
         is_verdict = any(msg.startswith(v) for v in VERDICTS)
         if not is_verdict:
             hard.append(b[:1500])
+            continue
+        # an obligation that failed at a line whose value passes through an exec closure WITHOUT a contract (untyped
+        # parameters: `.map_err(|e| ..)?`): Verus knows nothing about the closure's result, so the failure says nothing
+        # about the code - undecided, never an alarm
+        if any(UNTYPED_CLOSURE.search(t) for _ln, t in snippet_lines):
+            hard.append("an obligation failed at a line that passes through a closure without a contract (nothing is known about its "
+                        "result): undecided, not a violation\n" + b[:1500])
             continue
         label = None
         for ln, _t in snippet_lines:
